@@ -91,6 +91,12 @@ pub fn build(kind: Kind, n: usize) -> (MapFile, Universe) {
             items.extend((0..n).map(|i| method("r", &format!("r{}", i % 3), "int", Some((1, 9)), OLines::S(i as u64))));
             // n entries that tie on (obfuscated name, arguments, start line) and differ only in the original name
             items.extend((0..n.min(5000)).map(|i| method("t", &format!("t{i}"), "", None, OLines::None)));
+            // ... followed by repeats of early ones: they are duplicates however far back the first occurrence lies
+            for back in [0usize, 1, 31, 32, 33, 255, 256] {
+                if back < n.min(5000) {
+                    items.push(method("t", &format!("t{back}"), "", None, OLines::None));
+                }
+            }
             blocks.push(Block { orig: "com.example.Match".into(), obf: "b".into(), items });
             oc.insert("b".into());
             om.insert("k".into());
